@@ -1,9 +1,174 @@
-import Model.Common
-/-! Oracle handlers for C03 (stub until the property's model exists). -/
+import Model.C03
+import Model.C03P
+/-! Oracle handlers for C03: ring-descriptor and partition-ring merges, and the CRDT laws judged
+directly on the implementation's merge results. -/
 namespace OracleC03
-open Common
+open Common Ring
 
-def handle (_cmd : String) (_f : List String) : String × String × String :=
-  ("unknown-cmd", "-", "-")
+def showD (d : Desc) : String := showDesc (C03.sortById d)
+def showChange : Option Desc → String
+  | none => "nil"
+  | some d => showD d
+
+/-! ### quantifier membership (the property's provisos), evaluated on the inputs of a case -/
+
+def normalised (d : Desc) : Bool :=
+  C03.uniqueIds d && d.all fun i => C03.sortedStrict i.tokens && (i.state != .LEFT || i.tokens.isEmpty)
+
+def posTs (d : Desc) : Bool := d.all fun i => i.ts ≥ 1
+
+/-- each (entry, timestamp, tombstone-ness) denotes one content -/
+def coherent (all : List Inst) : Bool :=
+  all.all fun e => all.all fun e' =>
+    !(e.id == e'.id && e.ts == e'.ts && (e.state == .LEFT) == (e'.state == .LEFT)) || e == e'
+
+/-- no two instances claim the same token -/
+def noClash (all : List Inst) : Bool :=
+  all.all fun e => all.all fun e' => e.id == e'.id || e.tokens.all fun t => !e'.tokens.contains t
+
+def inQuantifier (ds : List Desc) : Bool :=
+  ds.all normalised && ds.all posTs && coherent ds.flatten && noClash ds.flatten
+
+/-- rank of an entry in the last-writer-wins order: (timestamp, is-tombstone) -/
+def newer (o t : Inst) : Bool := o.ts > t.ts || (o.ts == t.ts && o.state == .LEFT && t.state != .LEFT)
+
+def eraseTokens (i : Inst) : Inst := { i with tokens := [] }
+
+/-- judge of a single gossip merge (`cas = false`): per entry the newer timestamp wins and at equal
+timestamps the removal wins; nothing else appears; a nil change means untouched content. -/
+def judgeMerge (this other st : Desc) (chg : Option Desc) : List String := Id.run do
+  let mut bad : List String := []
+  let othern := C03.normalize other
+  if chg.isNone && showD st != showD this then bad := "nil-change-but-content-changed" :: bad
+  for e in st do
+    let t := C03.get? this e.id
+    let o := C03.get? othern e.id
+    let expect : Option Inst := match t, o with
+      | none, none => none
+      | some t, none => some t
+      | none, some o => some o
+      | some t, some o => if newer o t then some o else some t
+    -- token lists may legitimately shrink through conflict resolution; compare the other fields
+    if expect.map eraseTokens != some (eraseTokens e) then bad := s!"lww-violated:{e.id}" :: bad
+  for t in this do
+    if (C03.get? st t.id).isNone then bad := s!"entry-lost:{t.id}" :: bad
+  return bad
+
+def handleMerge (f : List String) : String × String × String :=
+  match f with
+  | [cas, now, this, other, st, chg] =>
+    match parseDesc this, parseDesc other, now.toInt?, parseDesc st with
+    | some this, some other, some now, some ist =>
+      let cas := cas == "1"
+      let m := C03.merge cas now this other
+      let ms := showD m.state
+      let mc := showChange m.change
+      let diff := if ms == st && mc == chg then "-" else s!"state={ms} change={mc}"
+      let ichg : Option Desc := if chg == "nil" then none else parseDesc chg
+      -- the per-merge judge applies to gossip merges of positive-timestamp, normalised receivers
+      let inq := !cas && normalised this && posTs this && posTs other && C03.uniqueIds other
+      let j := if inq then judgeMerge this other ist ichg else []
+      let acc := (C03.normalize other).foldl C03.stepEntry { this := this, updated := [], tokCh := false }
+      let tags := s!"cas={cas} upd={min acc.updated.length 3} tokch={acc.tokCh} conflict={acc.tokCh && C03.conflictsExist acc.this} inq={inq} n={min this.length 4}x{min other.length 4}"
+      (diff, if j.isEmpty then "-" else ",".intercalate j, tags)
+    | _, _, _, _ => ("bad-input", "-", "-")
+  | _ => ("bad-fields", "-", "-")
+
+/-- laws: fields a b c | ab ba ab_c a_bc aa a_chg abb s_chg s_b -/
+def handleLaws (f : List String) : String × String × String :=
+  match f with
+  | [a, b, c, ab, ba, ab_c, a_bc, aa, a_chg, abb, s_chg, s_b] =>
+    match parseDesc a, parseDesc b, parseDesc c with
+    | some da, some db, some dc =>
+      let ms := C03.mergeState
+      let mab := ms da db
+      let chg := (C03.merge false 0 da db).change
+      let s := ms da dc
+      let model := [showD mab, showD (ms db da), showD (ms mab dc), showD (ms da (ms db dc)), showD (ms da da),
+        showD (match chg with | none => da | some ch => ms da ch), showD (ms mab db),
+        showD (match chg with | none => s | some ch => ms s ch), showD (ms s db)]
+      let impl := [ab, ba, ab_c, a_bc, aa, a_chg, abb, s_chg, s_b]
+      let diff := if model == impl then "-" else "model=" ++ " ".intercalate model
+      let inq := inQuantifier [da, db, dc]
+      let j : List String :=
+        if !inq then [] else
+          (if ab != ba then ["not-commutative"] else []) ++
+          (if ab_c != a_bc then ["not-associative"] else []) ++
+          (if aa != showD da then ["not-idempotent"] else []) ++
+          (if abb != ab then ["redelivery-changes-state"] else []) ++
+          (if a_chg != ab then ["change-insufficient"] else []) ++
+          (if s_chg != s_b then ["change-insufficient-on-superset-replica"] else [])
+      let tags := s!"inq={inq} n={min da.length 3},{min db.length 3},{min dc.length 3} chg={chg.isSome} ab_ne_a={showD mab != showD da}"
+      (diff, if j.isEmpty then "-" else ",".intercalate j, tags)
+    | _, _, _ => ("bad-input", "-", "-")
+  | _ => ("bad-fields", "-", "-")
+
+/-! ### partition ring -/
+open C03P in
+def showPChange : Option PDesc → String
+  | none => "nil"
+  | some d => showPDesc d
+
+open C03P in
+def pInQuantifier (ds : List PDesc) : Bool :=
+  let ps := ds.flatMap (·.parts)
+  let os := ds.flatMap (·.owners)
+  ds.all (fun d => (d.parts.map (·.id)).Nodup && (d.owners.map (·.id)).Nodup) &&
+  os.all (fun o => o.ts ≥ 1) &&
+  ps.all (fun p => ps.all fun q => p.id != q.id ||
+    (p.tokens == q.tokens &&
+     (!(p.stateTs == q.stateTs && (p.state == partDeleted) == (q.state == partDeleted)) || p.state == q.state) &&
+     (p.lockedTs != q.lockedTs || p.locked == q.locked))) &&
+  os.all (fun o => os.all fun q => !(o.id == q.id && o.ts == q.ts && (o.state == ownerDeleted) == (q.state == ownerDeleted)) || o == q)
+
+open C03P in
+def handlePMerge (f : List String) : String × String × String :=
+  match f with
+  | [cas, now, this, other, st, chg] =>
+    match parsePDesc this, parsePDesc other, now.toInt? with
+    | some this, some other, some now =>
+      let m := C03P.merge (cas == "1") now this other
+      let ms := showPDesc m.state
+      let mc := showPChange m.change
+      let diff := if ms == st && mc == chg then "-" else s!"state={ms} change={mc}"
+      let j := if chg == "nil" && st != showPDesc this then "nil-change-but-content-changed" else "-"
+      (diff, j, s!"cas={cas} chg={m.change.isSome} n={min this.parts.length 3}+{min this.owners.length 3}")
+    | _, _, _ => ("bad-input", "-", "-")
+  | _ => ("bad-fields", "-", "-")
+
+open C03P in
+def handlePLaws (f : List String) : String × String × String :=
+  match f with
+  | [a, b, c, ab, ba, ab_c, a_bc, aa, a_chg, abb, s_chg, s_b] =>
+    match parsePDesc a, parsePDesc b, parsePDesc c with
+    | some da, some db, some dc =>
+      let ms := C03P.mergeState
+      let mab := ms da db
+      let chg := (C03P.merge false 0 da db).change
+      let s := ms da dc
+      let model := [showPDesc mab, showPDesc (ms db da), showPDesc (ms mab dc), showPDesc (ms da (ms db dc)), showPDesc (ms da da),
+        showPDesc (match chg with | none => da | some ch => ms da ch), showPDesc (ms mab db),
+        showPDesc (match chg with | none => s | some ch => ms s ch), showPDesc (ms s db)]
+      let impl := [ab, ba, ab_c, a_bc, aa, a_chg, abb, s_chg, s_b]
+      let diff := if model == impl then "-" else "model=" ++ " ".intercalate model
+      let inq := pInQuantifier [da, db, dc]
+      let j : List String :=
+        if !inq then [] else
+          (if ab != ba then ["p-not-commutative"] else []) ++
+          (if ab_c != a_bc then ["p-not-associative"] else []) ++
+          (if aa != showPDesc da then ["p-not-idempotent"] else []) ++
+          (if abb != ab then ["p-redelivery-changes-state"] else []) ++
+          (if a_chg != ab then ["p-change-insufficient"] else []) ++
+          (if s_chg != s_b then ["p-change-insufficient-on-superset-replica"] else [])
+      (diff, if j.isEmpty then "-" else ",".intercalate j, s!"inq={inq} chg={chg.isSome} ab_ne_a={showPDesc mab != showPDesc da}")
+    | _, _, _ => ("bad-input", "-", "-")
+  | _ => ("bad-fields", "-", "-")
+
+def handle (cmd : String) (f : List String) : String × String × String :=
+  if cmd == "C03.merge" then handleMerge f
+  else if cmd == "C03.laws" then handleLaws f
+  else if cmd == "C03.pmerge" then handlePMerge f
+  else if cmd == "C03.plaws" then handlePLaws f
+  else ("unknown-cmd", "-", "-")
 
 end OracleC03
